@@ -115,7 +115,7 @@ func (vc *VC) execBlocks(fn *ssa.Function, st0 *State, _ interface{}) []retRec {
 				for _, r := range t.Results {
 					vs = append(vs, vc.get(st, r))
 				}
-				rets = append(rets, retRec{st: st, vals: vs})
+				rets = append(rets, retRec{st: st, vals: vs, pos: t.Pos()})
 				if isTop {
 					vc.loopReturns(st, t, vs)
 				}
@@ -143,6 +143,7 @@ func (vc *VC) edge(out map[edgeKey]*State, from, to *ssa.BasicBlock, st *State) 
 		// back edge of the function under contract
 		if li := vc.loops[to]; li != nil {
 			li.backSts = append(li.backSts, st)
+			li.backMarks = append(li.backMarks, vc.n)
 			return
 		}
 	}
@@ -291,10 +292,25 @@ func (vc *VC) closeLoop(li *LoopInfo) {
 		if len(li.backSts) > 1 {
 			sfx = fmt.Sprintf("/e%d", bi+1)
 		}
+		// obligations of a back edge see the program up to that edge (symbols created while evaluating the invariant
+		// here are definitions of this obligation and stay visible: they are numbered after the edge but named in the goal)
+		n0, hi := len(vc.obls), vc.n
 		for _, cl := range invs {
 			g := vc.specBool(env, cl)
 			vc.addObl("inv-step", fmt.Sprintf("inv-step:L%d#%d%s", li.Ordinal, cl.Index, sfx), bs, g, li.Pos, cl.Tags, cl.Text)
 		}
+		defer func(n0, bi, hi int) {
+			for _, o := range vc.obls[n0:] {
+				if o.Hi == 0 && bi < len(li.backMarks) {
+					o.Mark, o.Hi = li.backMarks[bi], hi
+					if len(vc.Con.OfLoop("local", li.Ordinal)) > 0 {
+						// "loop N local": the steps of this loop are proved from its invariants, the function's requires and
+						// the unchanged part of the state; quantified facts learnt between entry and this loop are left out
+						o.CutLo, o.CutHi = vc.entryMark, li.mark
+					}
+				}
+			}
+		}(n0, bi, hi)
 		for vi, cl := range vc.Con.OfLoop("decreases", li.Ordinal) {
 			vc.specDepth++
 			v := env.eval(cl.Text)
@@ -307,6 +323,8 @@ func (vc *VC) closeLoop(li *LoopInfo) {
 		vc.addObl("dec", fmt.Sprintf("dec:L%d", li.Ordinal), li.hdr, F, li.Pos, nil, "loop has no decreases clause")
 	}
 	// cells and heap arrays that hold their header value at every back edge were not changed by the loop
+	vc.atOverride = li.mark
+	defer func() { vc.atOverride = 0 }()
 	for _, a := range sortedAllocs(li.hdrLocal) {
 		hv := li.hdrLocal[a]
 		same := true
@@ -323,7 +341,7 @@ func (vc *VC) closeLoop(li *LoopInfo) {
 			for i := range hc {
 				vc.alias[hc[i]] = pc[i]
 				// a definition of the header symbol: relevant only where that symbol is used
-				vc.defs = append(vc.defs, def{hc[i], "", pc[i]})
+				vc.addDef(def{hc[i], "", pc[i]})
 			}
 		}
 	}
@@ -346,7 +364,7 @@ func (vc *VC) closeLoop(li *LoopInfo) {
 		pv := li.pre.heap[n]
 		if same {
 			vc.alias[hc] = pv
-			vc.defs = append(vc.defs, def{hc, "", pv})
+			vc.addDef(def{hc, "", pv})
 			continue
 		}
 		modified = append(modified, n)
@@ -541,6 +559,7 @@ func (vc *VC) runOnce() {
 	vc.entry = st.clone()
 	vc.lemmas(st, env)
 	vc.entry = st.clone()
+	vc.entryMark = vc.n
 	vc.modset = vc.evalModifies(env, vc.Con.Of("modifies"))
 	if !vc.Con.Has("modifies") && vc.W.lenientFrame(vc.Con) {
 		vc.modset = &ModSet{All: true}
@@ -573,6 +592,46 @@ func (vc *VC) runOnce() {
 			}
 			// candidates for existential goals: integer locals of this path
 			vc.addObl("post", name, r.st, g, fn.Pos(), cl.Tags, cl.Text)
+		}
+	}
+	// "final P": an assertion about the state in which the function returns that may mention its local variables (the
+	// callers never see it). It is checked at every return statement where all the locals it names are in scope, and must
+	// be checkable at one of them at least.
+	for _, cl := range vc.Con.Of("final") {
+		sites := 0
+		for ri, r := range rets {
+			penv := vc.funcEnv(r.st, r.pos)
+			penv.old = vc.entry
+			for k, v := range vc.params {
+				if v.K != KAddr {
+					penv.vars[k] = v
+				}
+			}
+			vc.bindResults(penv, vc.Con, r.vals, fnFullName(fn))
+			g, ok := func() (g string, ok bool) {
+				defer func() {
+					if e := recover(); e != nil {
+						if se, is := e.(SpecError); is && strings.Contains(se.Error(), "unknown identifier") {
+							ok = false
+							return
+						}
+						panic(e)
+					}
+				}()
+				return vc.specBool(penv, cl), true
+			}()
+			if !ok {
+				continue
+			}
+			sites++
+			name := fmt.Sprintf("final#%d", cl.Index)
+			if multi {
+				name = fmt.Sprintf("final#%d/r%d", cl.Index, ri+1)
+			}
+			vc.addObl("post", name, r.st, g, fn.Pos(), cl.Tags, cl.Text)
+		}
+		if sites == 0 {
+			panic(specErr("%s:%d: final clause cannot be evaluated at any return statement", cl.File, cl.Line))
 		}
 	}
 }
@@ -757,6 +816,31 @@ func (vc *VC) resolveTerm(t string) string {
 	return t
 }
 
+// expandIntDefs replaces integer names introduced after mark (names of long index terms) by their definitions
+func (vc *VC) expandIntDefs(t string, mark int) string {
+	for round := 0; round < 4; round++ {
+		m := map[string]bool{}
+		symbols(t, m)
+		changed := false
+		for sym := range m {
+			if symNumber(sym) <= mark {
+				continue
+			}
+			for _, d := range vc.defs {
+				if d.Name == sym && d.Sort == "Int" {
+					t = substSym(t, sym, vc.resolveTerm(d.Term))
+					changed = true
+					break
+				}
+			}
+		}
+		if !changed {
+			break
+		}
+	}
+	return t
+}
+
 func symNumber(sym string) int {
 	i := strings.LastIndex(sym, "!")
 	if i < 0 {
@@ -784,6 +868,10 @@ func (vc *VC) inferredFrame(n, hdr, pre string, li *LoopInfo) {
 	}
 	var targets []string
 	seen := map[string]bool{}
+	// per target: the elements written, when every update of that target is a single-element update at an index that is the
+	// same in every iteration (nil: some other kind of update)
+	elems := map[string][]string{}
+	whole := map[string]bool{}
 	for _, w := range vc.writes {
 		if w.name != n || w.block == nil || !li.Body[w.block] {
 			continue
@@ -792,6 +880,27 @@ func (vc *VC) inferredFrame(n, hdr, pre string, li *LoopInfo) {
 			return
 		}
 		t := vc.resolveTerm(w.target)
+		if w.index == "" {
+			whole[t] = true
+		} else {
+			ix := vc.expandIntDefs(vc.resolveTerm(w.index), li.mark)
+			m := map[string]bool{}
+			symbols(ix, m)
+			for sym := range m {
+				if k := symNumber(sym); k > li.mark {
+					whole[t] = true
+				}
+			}
+			dup := false
+			for _, e := range elems[t] {
+				if e == ix {
+					dup = true
+				}
+			}
+			if !dup {
+				elems[t] = append(elems[t], ix)
+			}
+		}
 		m := map[string]bool{}
 		symbols(t, m)
 		for sym := range m {
@@ -812,4 +921,23 @@ func (vc *VC) inferredFrame(n, hdr, pre string, li *LoopInfo) {
 		excl = append(excl, Ne("o", t))
 	}
 	vc.define(fmt.Sprintf("(forall ((o Int)) (! (=> %s (= (select %s o) (select %s o))) :pattern ((select %s o))))", And(excl...), hdr, pre, hdr))
+	// within a written object/region: the elements other than the (iteration-independent) ones the loop updates keep their value
+	if strings.HasPrefix(sort, "(Array Int (Array Int ") {
+		for _, t := range targets {
+			if whole[t] || len(elems[t]) == 0 || len(elems[t]) > 4 {
+				continue
+			}
+			var ex []string
+			for _, t2 := range targets {
+				if t2 != t {
+					ex = append(ex, Ne(t, t2)) // another written object may be the same one at run time
+				}
+			}
+			for _, e := range elems[t] {
+				ex = append(ex, Ne("k", e))
+			}
+			vc.define(fmt.Sprintf("(forall ((k Int)) (! (=> %s (= (select (select %s %s) k) (select (select %s %s) k))) :pattern ((select (select %s %s) k))))",
+				And(ex...), hdr, t, pre, t, hdr, t))
+		}
+	}
 }
